@@ -49,6 +49,7 @@ class PreprocessorViaExternalProgram(Preprocessor):
                                             mode='w+') as stderr_file:
                     exitcode = subprocess.call(command_line,
                                                cwd=str(test_case_file_path.parent),
+                                               stdin=subprocess.DEVNULL,
                                                stdout=stdout_file,
                                                stderr=stderr_file)
                     if exitcode == 0:
